@@ -130,7 +130,17 @@ def work(tier, seed):
                 if tier == "quick" and (pi + (backend == "eager") + (pd == "f64")) % 2 == 0:
                     continue
                 cfg = to_cfg(BASE[1], pc, seed)
-                cfg.update(pdtype=pd, prec_dtype=prec)
+                cfg.update(pdtype=pd, prec_dtype=prec, gscale=0.3)
+                units.append({"cfg": cfg, "backend": backend, "mode": False})
+    # non-dyadic hyper-parameters and gradient scale: with powers of two every product and power is exact in any precision and
+    # any evaluation order, which would hide a compiled graph that computes a scalar or an outer product in another precision
+    for pi, pc in enumerate(PCS):
+        for backend in ("eager", "aot_eager"):
+            for pd, prec in (("f32", "f32"), ("f32", "f64")):
+                if tier == "quick" and (backend != "eager" or (pi + (prec == "f64")) % 2):
+                    continue
+                cfg = to_cfg(BASE[1], pc, seed)
+                cfg.update(pdtype=pd, prec_dtype=prec, betas=[0.9, 0.95], beta3=0.7, graft=["adam", 0.95, 1e-3], lr=0.01, wd=0.01, momentum=0.9, dampening=0.1, gscale=0.3)
                 units.append({"cfg": cfg, "backend": backend, "mode": False})
     # ignored dimensions (the factor updates / preconditioning skip a dimension lower than a preconditioned one)
     for pc in (["shampoo", {"ignored": [0]}], ["soap", {"ignored": [0]}], ["shampoo", {"ignored": [1]}]):
